@@ -56,6 +56,19 @@ Theorem C09_safe_if_mutex_held : forall ths n0 cached sched s,
 Proof. exact safe_all_schedules. Qed.
 Print Assumptions C09_safe_if_mutex_held.
 
+(** Whatever the locking discipline and the schedule: once all requests have
+    returned, every request whose transaction committed holds exactly the
+    [th_n] consecutive indices it asked for, and a rolled back request (dry
+    run) holds none.  Together with C09_all_schedules: every call that
+    succeeds obtains addresses no other call obtained. *)
+Theorem C09_each_request_obtains : forall ths n0 cached sched s,
+  exec ths (init ths n0 cached) sched = Some s -> terminated s = true ->
+  forall t th, nth_error ths t = Some th ->
+    (th_commits th = true -> exists r, obtained s t = rangeN r (th_n th)) /\
+    (th_commits th = false -> obtained s t = []).
+Proof. exact each_request_obtains. Qed.
+Print Assumptions C09_each_request_obtains.
+
 (** The two locks cannot deadlock: whatever was scheduled so far, if a request
     is unfinished some thread can take a step. *)
 Theorem C09_no_deadlock : forall ths n0 cached sched s,
